@@ -116,8 +116,8 @@ def write_forcing_file(path: Path, sc, frames: list[int], times=None) -> None:
         uv.set_auto_maskandscale(False)
         vv.set_auto_maskandscale(False)
         if packed:
-            for var in (uv, vv):
-                var.scale_factor = np.float32(truth.pack_scale(sc))
+            for var, comp in ((uv, "u"), (vv, "v")):
+                var.scale_factor = np.float32(truth.pack_scale(sc, comp))
                 var.add_offset = np.float32(0.0)
         svars = {}
         for name in truth.scalar_names(sc):
